@@ -459,6 +459,7 @@ class G:
         self.depth_budget = 3
         self.assigned = set()        # names very likely assigned at this point (heuristic, raises yield)
         self.allow_rec = in_main
+        self.safe = False            # when set, leaves that may be absent at run time are avoided
 
     # -- leaves
     def int_lit(self):
@@ -470,13 +471,17 @@ class G:
 
     def int_leaf(self):
         r = self.rng
+        if self.safe:
+            return self.int_leaf_present()
         c = []
         c += [self.int_lit()] * 4
         for n in ("i0", "i1", "i2"):
             if n in self.assigned:
                 c += [("local", n)] * 3
         if self.allow_rec:
-            c += [("field", "i"), ("field", "i"), ("ctx", "NR"), ("ctx", "NF"), ("field", "x"), ("field", "y")]
+            c += [("field", "i"), ("field", "i"), ("ctx", "NR"), ("ctx", "NF")]
+            for f in ("x", "y"):
+                c.append(("bin", "??", ("field", f), ("int", r.randint(0, 9))) if r.random() < 0.6 else ("field", f))
         for n in ("ci0", "ci1"):
             if ("@" + n) in self.assigned:
                 c += [("oos", n)] * 2
@@ -491,7 +496,7 @@ class G:
             if n in self.assigned:
                 c += [("local", n)] * 3
         if self.allow_rec:
-            c += [("field", "a"), ("field", "a"), ("field", "b")]
+            c += [("field", "a"), ("field", "a")] + ([] if self.safe else [("field", "b")])
         for n in ("cs0",):
             if ("@" + n) in self.assigned:
                 c += [("oos", n)] * 2
@@ -546,7 +551,7 @@ class G:
 
     def map_lit(self, d):
         r = self.rng
-        n = r.choice([0, 1, 2, 2, 3])
+        n = r.choice([1, 1, 2, 2, 3, 3, 0])
         items = []
         for _ in range(n):
             if d > 0 and r.random() < 0.25:
@@ -565,10 +570,12 @@ class G:
         for _ in range(n):
             if d > 0 and r.random() < 0.15:
                 xs.append(r.choice([self.arr_lit(0), self.map_lit(0)]))
-            elif r.random() < 0.8:
-                xs.append(self.expr("int", 1))
+            elif r.random() < 0.5:
+                xs.append(self.int_leaf_present())
+            elif r.random() < 0.6:
+                xs.append(("bin", r.choice(["+", "*", "-"]), self.int_leaf_present(), self.int_lit()))
             else:
-                xs.append(self.expr("str", 1))
+                xs.append(self.str_lit())
         return ("arr", xs)
 
     def scalar(self, d=2):
@@ -713,12 +720,16 @@ class G:
                 return ("bin", r.choice(["<", "<=", ">", ">=", "==", "!="]), self.int_leaf_present(), self.int_lit())
             return self.bool_leaf()
         x = r.random()
-        if x < 0.35:
-            op = r.choice(["<", "<=", ">", ">=", "==", "!="])
-            return ("bin", op, self.int_expr(d - 1), self.int_expr(d - 1))
         if x < 0.45:
             op = r.choice(["<", "<=", ">", ">=", "==", "!="])
-            return ("bin", op, self.str_expr(d - 1), self.str_expr(d - 1))
+            saved = self.safe
+            self.safe = True
+            try:
+                if x < 0.35:
+                    return ("bin", op, self.int_expr(d - 1), self.int_expr(d - 1))
+                return ("bin", op, self.str_expr(d - 1), self.str_expr(d - 1))
+            finally:
+                self.safe = saved
         if x < 0.62:
             return ("bin", r.choice(["&&", "||", "^^", "&&", "||"]), self.bool_expr(d - 1), self.bool_expr(d - 1))
         if x < 0.70:
@@ -1176,7 +1187,7 @@ class PG(G):
             if rec and r.random() < 0.5:
                 return [("assign", ("srec",), r.choice([("bcall", "mapexcept", [("srec",), ("str", r.choice(["b", "x", "i"]))]),
                                                         ("bcall", "mapsum", [("map", [(("str", "first"), self.scalar(1))]), ("srec",)]),
-                                                        self.map_lit(1)]))]
+                                                        ("map", [(("str", "only"), self.scalar(1))] + self.map_lit(1)[1])]))]
             return self.unset_stmt()
         if x < 0.54:
             return self.unset_stmt()
